@@ -123,6 +123,11 @@ def layout_predicate(ctx, rule):
                              'use %s' % (m.name, sorted(a), [sorted(s) for s in sets]))
         for (a, m, n) in rp[dim]:
             ctx.ok(rule, m, n.test, 'reader unit-order predicate %s' % sorted(a)) if len(sets) == 1 else None
+    for (m, call, t) in rp.get('unguarded', []):
+        ctx.fail(rule, m, enclosing_stmt(call), 'reader method %s calls the specialised loader %s without a test on the blockshape: '
+                 'its address arithmetic assumes one layout and is used for every layout' % (m.name, t.name), line=call.lineno)
+    if rp.get('unguarded'):
+        return
     if len(rp['3d']) < 4 or len(rp['2d']) < 1:
         raise AnalysisError('reader dispatch sites on blockshape: found %d (3D) / %d (2D), floors 4 / 1' % (
             len(rp['3d']), len(rp['2d'])))
